@@ -152,7 +152,7 @@ inline void init(int argc, char** argv) {
     if (s.shard_n < 1) s.shard_n = 1;
     {
         const char* e = getenv("VERIF_CASE_CPU_S");
-        s.case_cpu_budget_s = e ? atol(e) : (s.thorough ? 7200 : 1200);
+        s.case_cpu_budget_s = e ? atol(e) : (s.thorough ? 3600 : 300);
         if (s.case_cpu_budget_s > 0) signal(SIGPROF, &cpu_budget_handler);
     }
 }
